@@ -68,9 +68,15 @@ def dropItems (cols : List Name) (ns : List Name) : List (Name × Expr) :=
 def fillItems (cols : List Name) (v : Val) (sub : List Name) : List (Name × Expr) :=
   cols.map (fun c => if c ∈ sub then (c, Expr.ite (.isNull (.col c)) (.lit v) (.col c)) else (c, Expr.col c))
 
-/-- `replace(old, new, subset)`: CASE WHEN c = old THEN new ELSE c END for c in subset -/
-def replaceItems (cols : List Name) (old new : Val) (sub : List Name) : List (Name × Expr) :=
-  cols.map (fun c => if c ∈ sub then (c, Expr.ite (.bin .eq (.col c) (.lit old)) (.lit new) (.col c)) else (c, Expr.col c))
+/-- the CASE chain `replace` builds for one column: `when(c == old₁, new₁).when(c == old₂, new₂)….otherwise(c)`
+    (the first matching pair wins, i.e. a simultaneous lookup, not a cascade) -/
+def replaceExpr (c : Name) : List (Val × Val) → Expr
+  | [] => .col c
+  | (o, n) :: rest => .ite (.bin .eq (.col c) (.lit o)) (.lit n) (replaceExpr c rest)
+
+/-- `replace(to_replace, value, subset)` for a scalar, a list pair or a dict: the same chain for every column of subset -/
+def replaceItems (cols : List Name) (pairs : List (Val × Val)) (sub : List Name) : List (Name × Expr) :=
+  cols.map (fun c => if c ∈ sub then (c, replaceExpr c pairs) else (c, Expr.col c))
 
 /-- `toDF(*names)`: the current select expressions, re-aliased positionally -/
 def toDFItems (sel : List (Name × Expr)) (names : List Name) : List (Name × Expr) :=
@@ -122,7 +128,7 @@ inductive Step
   | orderBy (keys : List OrdKey)
   | limit (n : Nat)
   | fillna (v : Val) (sub : List Name)
-  | replace (old new : Val) (sub : List Name)
+  | replace (pairs : List (Val × Val)) (sub : List Name)
   | toDF (names : List Name)
   | dropna (howAll : Bool) (thresh : Option Nat) (sub : List Name)
   | unpivot (ids vals : List Name) (var val : Name)
@@ -149,9 +155,9 @@ def DF.apply (d : DF) : Step → DF
       wrapper tag_fillna
         (fun d => wrapper tag_select (fun d' => bodySelect (fillItems d.outNames v sub) d') d) d
 
-  | .replace old new sub =>
+  | .replace pairs sub =>
       wrapper tag_replace
-        (fun d => wrapper tag_select (fun d' => bodySelect (replaceItems d.outNames old new sub) d') d) d
+        (fun d => wrapper tag_select (fun d' => bodySelect (replaceItems d.outNames pairs sub) d') d) d
   | .toDF names => wrapper tag_toDF (fun d => { d with blk := { d.blk with sel := toDFItems d.blk.sel names } }) d
   | .dropna howAll thresh sub =>
       -- dropna: new_df.select(num_nulls, append=True).where(num_nulls < k).select(*all_columns), each through its own wrapper
@@ -183,7 +189,7 @@ def specStep (T : Table) : Step → Table
   | .orderBy keys => T.sort keys
   | .limit n => T.limit n
   | .fillna v sub => T.project (fillItems T.cols v sub)
-  | .replace old new sub => T.project (replaceItems T.cols old new sub)
+  | .replace pairs sub => T.project (replaceItems T.cols pairs sub)
   | .toDF names => T.project (List.zipWith (fun c n => (n, Expr.col c)) T.cols names)
   | .dropna howAll thresh sub =>
       { T with rows := T.rows.filter (fun r =>
